@@ -72,7 +72,9 @@ SHAPES = ("single", "chain", "diamond")
 
 def batch_program(seqs, bi: int) -> Tuple[defx.Program, Dict[str, Any]]:
     shape = SHAPES[bi % len(SHAPES)]
-    base = {"constants": {"K3": 3, "KF": 2.5, "KNEG": -7, "KEXP": "K3 * 4 + 1", "KHEX": "0x20", f"KB{bi}": bi},
+    base = {"constants": {"K3": 3, "KF": 2.5, "KNEG": -7, "KEXP": "K3 * 4 + 1", "KHEX": "0x20", f"KB{bi}": bi,
+                          # floats that need all their digits, computed ones, very small and very large ones
+                          "KPI": 3.14159265358979, "KRATE": 30000, "KINV": "1 / KRATE", "KFRAC": 24414.0625, "KTINY": 1.25e-07, "KBIG": 123456789.125, "KTHIRD": "1.0 / 3"},
             "string_constants": {"SC_A": "alpha", f"SC_B{bi}": "be ta"},
             "aliases": {**ALIASES, "AL_VAR": VAR_TARGETS[bi % len(VAR_TARGETS)], "AL_VAR2": "AL_VAR"}, "host_ids": {"HOST_ONE": 11, f"HOST_B{bi}": 100 + bi},
             "module_ids": {"MOD_ONE": 12, f"MOD_B{bi}": 20 + bi % 70},
@@ -82,7 +84,8 @@ def batch_program(seqs, bi: int) -> Tuple[defx.Program, Dict[str, Any]]:
     parts = [{"struct_defs": {}, "message_defs": {}}, {"struct_defs": {}, "message_defs": {}}, {"struct_defs": {}, "message_defs": {}}]
     meta = {}
     for k, seq in enumerate(seqs):
-        fields = {f"f{i}": ftext(t, L) for i, (t, L) in enumerate(seq)}
+        # every fifth definition spells one field name with a leading underscore (reserved / spare fields are commonly named so)
+        fields = {(f"_f{i}" if (k % 5 == 0 and i == min(1, len(seq) - 1)) else f"f{i}"): ftext(t, L) for i, (t, L) in enumerate(seq)}
         uses_msg = any(t == "NM" for t, _ in seq)
         as_msg = uses_msg or k % 2 == 1
         part = parts[k % 3 if shape != "single" else 0]
